@@ -36,7 +36,7 @@ LEVEL_TEXT = (
 LEVEL_NOTE = "Trusted: numpy float64 arithmetic, the C07 reference model (vmon/ref.py); edge points within the stated margin are either-way."
 TECHNIQUE = "runtime postcondition monitor on block_split (all aliases rebound) with an independent floor-arithmetic reference labelling; seeded hostile point clouds incl. exact edge/corner/outside points"
 FLOORS = {
-    "quick": {"eval:block_split": 1600, "eval:label": 120000, "distinct_nontrivial": 1200, "points:edge": 15000, "points:outside": 15000, "eval:layout_pair": 200, "class:dtype_int_east_float_north": 30, "class:dtype_float32_both": 30, "class:history_calls": 160, "class:nonfinite_ignored_coordinate": 250},
+    "quick": {"eval:block_split": 1600, "eval:label": 120000, "distinct_nontrivial": 1200, "points:edge": 15000, "points:outside": 15000, "eval:layout_pair": 200, "class:dtype_int_east_float_north": 30, "class:dtype_float32_both": 30, "class:history_calls": 160, "class:nonfinite_ignored_coordinate": 250, "class:large_cloud": 2, "class:concurrent_calls": 8},
     "thorough": {"eval:block_split": 25000, "eval:label": 2000000, "distinct_nontrivial": 20000, "points:edge": 200000, "points:outside": 200000},
 }
 JOBS = {"quick": 1, "thorough": 16}
@@ -47,8 +47,8 @@ AMBIENT_FILES = ['test_blockreduce.py', 'test_model_selection.py', 'test_project
 
 def plan(tier):
     if tier == "quick":
-        return collections.OrderedDict(random=240, edges=160, outside=120, layouts=100, dtypes=80, history=40, nested=40)
-    return collections.OrderedDict(random=4000, edges=2500, outside=2000, layouts=1500, dtypes=1500, history=800, nested=600, ambient=4)
+        return collections.OrderedDict(random=240, edges=160, outside=120, layouts=100, dtypes=80, history=40, nested=40, large=4, threads=8)
+    return collections.OrderedDict(random=4000, edges=2500, outside=2000, layouts=1500, dtypes=1500, history=800, nested=600, large=48, threads=160, ambient=4)
 
 
 # ----------------------------------------------------------------------
@@ -373,6 +373,44 @@ def run_case(run, tap, stream, index, rng):
             vd.block_split((east, north), spacing=sp)
             vd.block_split((east, north), spacing=sp, adjust="region", region=region)
             run.count("class:history_calls", 4)
+        elif stream == "large":
+            # many points in one call: a chunked or 'fast' branch taken only above some size must label the first, the last and
+            # every chunk-boundary point like the plain path (sizes around powers of two and of ten, and odd ones)
+            npts = int(rng.choice([100001, 131073, 200000, 262145, 300001, 524288 + 3])) if index % 2 == 0 else int(rng.integers(100001, 400000))
+            east = rng.uniform(-3.0, 11.0, npts)
+            north = rng.uniform(50.0, 57.0, npts)
+            if rng.random() < 0.5:  # the last points far from block 0 (a label left at its initial value would go unnoticed there)
+                east[-5:], north[-5:] = 10.9, 56.9
+            kwargs = [dict(spacing=0.7), dict(shape=(9, 13)), dict(spacing=(0.5, 1.1), adjust="region")][int(rng.integers(0, 3))]
+            region = [-3.0, 11.0, 50.0, 57.0] if rng.random() < 0.5 else None
+            vd.block_split((east, north), region=region, **kwargs)
+            if index % 3 == 0:
+                side = int(np.sqrt(npts))
+                vd.block_split((east[: side * side].reshape(side, side), north[: side * side].reshape(side, side)), **kwargs)
+            run.count("class:large_cloud")
+            run.sample("large", {"n_points": npts, "kwargs": kwargs})
+        elif stream == "threads":
+            # concurrent calls in one process (thread pools, dask's threaded scheduler): every call, judged on its own by the
+            # monitor, must label its own points - module-level scratch space shared between calls would mix them up
+            from .. import core as _core
+
+            nthreads = int(rng.choice([2, 3, 4]))
+            npts = int(rng.choice([2000, 20000, 150000]))
+            jobs = []
+            for k in range(nthreads):
+                sub = np.random.default_rng(int(rng.integers(0, 2 ** 31)))
+                n_k = npts if rng.random() < 0.6 else int(npts * sub.uniform(0.3, 1.0))
+                east, north = sub.uniform(-5, 5, n_k) + 3 * k, sub.uniform(0, 4, n_k) - k
+                kw = [dict(spacing=0.5), dict(shape=(4, 7)), dict(spacing=(0.4, 0.9), adjust="region")][int(sub.integers(0, 3))]
+                jobs.append((lambda e, n, kw: lambda: vd.block_split((e, n), **kw))(east, north, kw))
+            results = _core.run_threads(jobs, rounds=int(3 if npts > 50000 else 12))
+            for res, exc in results:
+                if isinstance(exc, TimeoutError):
+                    run.note_inconclusive("threads: %r" % (exc,))
+                elif exc is not None:
+                    run.violation("threads", "block_split raised %r when called concurrently from %d threads" % (exc, nthreads), {"n_points": npts}, key="threads-raised")
+            run.count("class:concurrent_calls", len(jobs))
+            run.sample("threads", {"threads": nthreads, "n_points": npts})
         elif stream == "nested":
             npts = int(rng.integers(30, 200))
             east, north = gen.cloud(rng, npts, offset_factor=float(rng.choice([0, 1, 30])))
